@@ -9,7 +9,8 @@
      - called functions satisfy `call_ok` (graph-pure, commute with order-preserving renamings of graph-node ids, invent no graph-node id):
        proved for every stdlib function except `node`, `format`, `join` (stdlib_call_ok_partial; format/join render a node reference as text showing its number);
      - global variables only mention nodes of the initial graph g0, and g0 only mentions its own nodes (gclosed);
-     - no debug attributes (config0): with a location attribute an edge created by two stanzas keeps the attribute of the statement evaluated FIRST, so the property is false as stated;
+     - no debug attributes (config0): with a location attribute an edge created by two stanzas keeps the attribute of the creating statement evaluated FIRST
+       (c08_debug_attribute_depends_on_order), and textual reordering changes every location anyway;
      - no cancellation budget;
      - fuel: lazy_block_order_iso_partial says that the permuted run succeeds FROM SOME FUEL ON (the fuel needed does depend on the order in the model: a thunk may be
        forced first at a deeper nesting); lazy_block_order_fail_partial: an error or a panic for one order excludes success for every other order at every fuel;
@@ -244,3 +245,11 @@ Example c08_theorem_applies :
       run_lazy2 K7.k7_tree c8_file config0 [[]] None ([] : list Regex.regex) Regex.rx_captures c8_call default_fuel F c8_ms' [] = Ok (ls', p') /\
       graph_iso r c8_g (l_graph ls').
 Proof. exact c8_theorem_applies. Qed.
+(* outside the fragment (limit of the property): with the location debug attribute configured, an edge created by two stanzas carries the location of the creating
+   statement that is evaluated FIRST (LazyCreateEdge::evaluate only sets the attributes of a new edge; confirmed on the implementation, strict and lazy: the statement of the
+   textually first stanza wins): permuting the blocks (statement locations kept) gives graphs that are not isomorphic.  WHICH statement an edge's debug location names
+   depends on the stanza order; textual reordering changes every location anyway, so C08 can only be meant without debug attributes (config0, as in Step 3). *)
+Example c08_debug_attribute_depends_on_order :
+  dx_run [(0, c8_m); (1, c8_m)] = Ok [{| g_attrs := []; g_edges := [(0, [([108], VStr (dx_loc 50))])] |}] /\
+  dx_run [(1, c8_m); (0, c8_m)] = Ok [{| g_attrs := []; g_edges := [(0, [([108], VStr (dx_loc 54))])] |}].
+Proof. exact dx_order_observable. Qed.
